@@ -84,6 +84,7 @@ fn profile() -> Profile {
         w_pubrel: 3,
         w_poll: 8,
         w_recv: 2,
+        w_pingresp: 3,
         payload_max: 50,
         ..Profile::default()
     }
@@ -196,6 +197,27 @@ pub fn exhaustive_inputs() -> Vec<Input> {
         let cuts: Vec<u32> = (1..n).filter(|i| mask & (1 << (i - 1)) != 0).collect();
         out.push(Input { case: case.clone(), variants: vec![IoCfg { read_chunks: vec![], write_chunks: vec![], pend_first: mask & 1 == 1, read_cuts: cuts }] });
     }
+    // a second stream with the shortest possible packets in the middle:
+    // CONNACK (5) + PINGRESP (2) + PUBACK-less QoS 0 PUBLISH (6) + PINGRESP (2) = 15 bytes
+    let case2 = Case {
+        cfg: Cfg { rx: 64, tx: 256, ..Cfg::default() },
+        broker: BrokerMode::Scripted,
+        conns: vec![ConnScript {
+            connect: ConnectSpec::default(),
+            steps: vec![
+                Step::Broker(BrokerAct::PingResp),
+                Step::Broker(BrokerAct::Deliver { qos: 0, retain: false, topic: TopicSpec::new(1, 0), payload: PayloadSpec::new(0, 0), props: vec![], redeliver: None }),
+                Step::Broker(BrokerAct::PingResp),
+                Step::PollIdle { max: 6 },
+            ],
+            end: EndHow::Drop,
+        }],
+    };
+    let n2 = 15u32;
+    for mask in 0u32..(1 << (n2 - 1)) {
+        let cuts: Vec<u32> = (1..n2).filter(|i| mask & (1 << (i - 1)) != 0).collect();
+        out.push(Input { case: case2.clone(), variants: vec![IoCfg { read_chunks: vec![], write_chunks: vec![], pend_first: false, read_cuts: cuts }] });
+    }
     out
 }
 
@@ -234,13 +256,13 @@ pub fn run(ctx: &Ctx) -> i32 {
             Eval { nontrivial: o.write_in_three_pieces || o.header_split, violations: o.violations, classes, watchdog: o.watchdog }
         }));
     }
-    agg.extra.insert("exhaustive_segmentations_of_13_byte_stream".into(), serde_json::json!(n_ex));
+    agg.extra.insert("exhaustive_segmentations_of_13_and_15_byte_streams".into(), serde_json::json!(n_ex));
     finish(
         ctx,
         agg,
         Report {
             level: "exploration",
-            rule: "program + scripted/reactive broker generated as in C01 but without cancellations and faults; reference run with whole reads and writes, 5-7 variants per program with generated read chunk patterns (1-byte, alternating, random), partial-write patterns and pend-first scheduling; plus the exhaustive 4096 segmentations of a 13-byte inbound stream (CONNACK + QoS 2 PUBLISH, incl. every split inside both fixed headers). Oracle: delivered messages, every operation result, all sampled handle/session predicates, connect results and the outbound byte stream of each transport are identical to the reference run (and so is the broker's inbound stream). Non-trivial = a variant that splits a fixed header / reads single bytes, or has a packet accepted in >= 3 write pieces; distinct = distinct (program, variants).".into(),
+            rule: "program + scripted/reactive broker generated as in C01 but without cancellations and faults; reference run with whole reads and writes, 5-7 variants per program with generated read chunk patterns (1-byte, alternating, random), partial-write patterns and pend-first scheduling; plus the exhaustive 4096 segmentations of a 13-byte inbound stream (CONNACK + QoS 2 PUBLISH) and the 16384 segmentations of a 15-byte stream containing the shortest packets (CONNACK + PINGRESP + QoS 0 PUBLISH + PINGRESP), incl. every split inside every fixed header. Oracle: delivered messages, every operation result, all sampled handle/session predicates, connect results and the outbound byte stream of each transport are identical to the reference run (and so is the broker's inbound stream). Non-trivial = a variant that splits a fixed header / reads single bytes, or has a packet accepted in >= 3 write pieces; distinct = distinct (program, variants).".into(),
             assumptions: vec!["virtual time is frozen; no cancellations, no transport faults (those are C13 / C11)".into()],
         },
     )
